@@ -615,9 +615,9 @@ func c03ExitCodeMap(c *Check, a *Anchors) {
 			case *ast.ExprStmt:
 				if call, ok := ast.Unparen(x.X).(*ast.CallExpr); ok && isFunc(callee(inf, call), "os", "", "Exit") && len(call.Args) == 1 {
 					// os.Exit(helper(err, flag)): evaluate the helper
-					if hc, ok := ast.Unparen(call.Args[0]).(*ast.CallExpr); ok {
+					if hc, ok := ast.Unparen(call.Args[0]).(*ast.CallExpr); ok && strings.HasPrefix(classify(inf, call.Args[0]), "other:") {
 						if fn, ok := callee(inf, hc).(*types.Func); ok {
-							if h := c.P.DeclOf(fn); h != nil && h.Pkg == mainFn.Pkg {
+							if h := c.P.DeclOf(fn); h != nil && h.Decl != nil && strings.HasPrefix(h.Pkg.PkgPath, Mod) {
 								c.Fn(h)
 								var fp *types.Var
 								pi := 0
